@@ -110,3 +110,16 @@ pub fn loadbin(rest: &str) -> String {
         Err(s) => format!("err {}", show_parse_err(&s)),
     }
 }
+
+/// `loadtwice <hexA> <hexB>`: ONE `dr::Loader` handed to the parser twice (a consumer that is reused after a parse that
+/// ended anywhere); both results and the module the loader holds afterwards.
+pub fn loadtwice(rest: &str) -> String {
+    let mut p = rest.split_whitespace();
+    let a = match p.next().and_then(|x| crate::util::try_unhex(if x == "-" { "" } else { x })) { Some(b) => b, None => return "bad-request".to_string() };
+    let b = match p.next().and_then(|x| crate::util::try_unhex(if x == "-" { "" } else { x })) { Some(b) => b, None => return "bad-request".to_string() };
+    let mut loader = dr::Loader::new();
+    let r1 = rspirv::binary::Parser::new(&a, &mut loader).parse();
+    let r2 = rspirv::binary::Parser::new(&b, &mut loader).parse();
+    let show = |r: &Result<(), rspirv::binary::ParseState>| match r { Ok(()) => "ok".to_string(), Err(s) => show_parse_err(s) };
+    format!("done {} {} | {}", show(&r1), show(&r2), show_module(&loader.module()))
+}
